@@ -71,6 +71,7 @@ def install(ctx, repo, probes):
         probes.wrap(D, name, make_conv(name, src, dst))
         for sp in SPELLS:
             ctx.target("%s/%s->%s" % (sp, src, dst))
+    ctx.target("points/float-day-field")
 
     def length(name, ref):
         def post(snap, args, kwargs, res, exc):
@@ -280,8 +281,16 @@ def run_case(ctx, repo, case):
             for a, b in case["pairs"]:
                 D.get_days_in_year_range(a, b)
         elif case["op"] == "points":
-            for kw in case["points"]:
+            for n_pt, kw in enumerate(case["points"]):
                 p = repo.tp(kw)
+                if n_pt % 5 == 4 and p._hour_of_day != 24:
+                    # the same day reached by arithmetic that leaves its day
+                    # count as a whole float (2.0 days, 48.0 hours carried)
+                    p = (p - repo.Duration(days=2)) + (
+                        repo.Duration(days=2.0) if n_pt % 2 else
+                        repo.Duration(hours=48.0, standardize=True))
+                    ctx.cls("points/float-day-field")
+
                 rd = R.tp_rd(mode, p)
                 q1, q2, q3 = (p.to_calendar_date(), p.to_ordinal_date(),
                               p.to_week_date())
